@@ -150,8 +150,8 @@ class Dec3Part(DecPart):
             stream = [int(x) for x in c[2]] if len(c) > 2 else []
         except ValueError:
             return v
-        if any(it and it[0] == "4" for it in parse_fields(obs)):
-            return v
+        if obs.startswith("9") or any(it and it[0] == "4" for it in parse_fields(obs)):
+            return v                  # 97 / 98: the case itself is malformed (no configuration): nothing was decoded
         frames = whole_frames(stream)
         if frames and any(first == 0x90 and len(body) > 2 and any(b not in (0, 1, 2, 0x80) for b in body[2:])
                           for (first, body) in frames):
